@@ -851,3 +851,37 @@ contract(
     slice_note="nested function of m_eff (variants cosh / periodic / sinh); its free variables func, t, self are parameters",
     note="the per-timeslice solve is find_root (C09, assumed); this obligation pins the equation that is solved",
 )
+
+
+# ---------------------------------------------------------------------------------------------------
+# Corr.plottable(): the defined timeslices with exactly their central values and errors (C19)
+
+from pyvc.lib_obs import DVAL  # noqa: E402
+
+
+def _plot_post(a, r):
+    c = a.self
+    T = Tn(c)
+    xs, ys, es = r[0], r[1], r[2]
+    m = Len(xs)
+    if not isinstance(c, SObj):
+        good = [t for t in range(T) if c.content[t] is not None]
+        return {"defined timeslices, values and errors": list(xs) == good and
+                all(ys[k] == c.content[t][0].value and es[k] == c.content[t][0].dvalue for k, t in enumerate(good))}
+    return {
+        "same length": And(Len(ys) == m, Len(es) == m),
+        "timeslices defined, increasing": ForAll(0, m, lambda k: And(At(xs, k) >= 0, At(xs, k) < T, Not(CN(c, At(xs, k))),
+                                                                      ForAll(0, k, lambda k2: At(xs, k2) < At(xs, k)))),
+        "every defined timeslice listed": ForAll(0, T, lambda t: Implies(Not(CN(c, t)), Exists(0, m, lambda k: At(xs, k) == t))),
+        "value and error of the same timeslice": ForAll(0, m, lambda k: And(eq(At(ys, k), CV(c, At(xs, k))),
+                                                                            eq(At(es, k), wrap(DVAL(treal(CV(c, At(xs, k)))))))),
+    }
+
+
+contract(
+    REL + "::Corr.plottable", props=["C19"], lib="obs", params=dict(self=CorrSpec()),
+    ensures=_plot_post,
+    crosscheck=False, refute=False,
+    note="the error of an entry is the uninterpreted function DVAL of the entry (observable-as-real abstraction): the postcondition "
+         "states that value and error are read from the same, defined, timeslice",
+)
